@@ -10,7 +10,8 @@ from .smt import Solver
 
 class ZContract:
     """requires: list of z3 formulas over the symbolic arguments; post(ret, env, ex, st) -> list of (name, formula)"""
-    def __init__(self, fn, make, props, lib=None, calls=None, invariants=None, note=''):
+    def __init__(self, fn, make, props, lib=None, calls=None, invariants=None, note='', confirm=None):
+        self.confirm = confirm or [fn.split('.')[-1]]
         self.fn = fn; self.make = make; self.props = props; self.lib = lib or {}; self.calls = calls or {}
         self.invariants = invariants or {}; self.note = note
 
@@ -87,6 +88,7 @@ class ZContract:
         tot = time.time() - t0
         for v in out:
             v.seconds = tot / max(1, len(out))
+            v.confirm = self.confirm
         return out
 
 
@@ -113,7 +115,8 @@ def _lanczos():
         return [('c', zint(beta.shape[0]) == zint(alpha.shape[0]))]
     return dict(args={'Afunc': _afunc, 'vstart': ZArr((n,), 'param:vstart'), 'numiter': m}, requires=[n >= 1, m >= 1], post=post, canary=canary, assume_asserts=['nrmv > 0'], check_dtypes=True)
 
-CONTRACTS.append(ZContract('krylov.lanczos_iteration', _lanczos, ('C14', 'C15', 'C08', 'C10')))
+CONTRACTS.append(ZContract('krylov.lanczos_iteration', _lanczos, ('C14', 'C15', 'C08', 'C10'),
+                           confirm=['lanczos_iteration', 'eigh_krylov', 'expm_krylov', 'integrate_local', 'calculate_ground_state']))
 
 def _arnoldi():
     n = z3.Int('n'); m = z3.Int('numiter')
@@ -127,7 +130,7 @@ def _arnoldi():
         return [('c', zint(V.shape[1]) == m)]
     return dict(args={'Afunc': _afunc, 'vstart': ZArr((n,), 'param:vstart'), 'numiter': m}, requires=[n >= 1, m >= 1], post=post, canary=canary, assume_asserts=['nrmv > 0'], check_dtypes=True)
 
-CONTRACTS.append(ZContract('krylov.arnoldi_iteration', _arnoldi, ('C14', 'C15')))
+CONTRACTS.append(ZContract('krylov.arnoldi_iteration', _arnoldi, ('C14', 'C15'), confirm=['arnoldi_iteration', 'expm_krylov']))
 
 
 def verify(prop, tier='quick'):
